@@ -55,6 +55,15 @@ Lemma opcode_w_set_sys s l : opcode_w (set_sys s l) = opcode_w s. Proof. reflexi
 Lemma opcode_len_set_sys s l : opcode_len (set_sys s l) = opcode_len s. Proof. reflexivity. Qed.
 Lemma R_set_sys s l : R (set_sys s l) = R s. Proof. reflexivity. Qed.
 
+Lemma bind_assoc_run {A B C} (m : M machine A) (f : A -> M machine B) (g : B -> M machine C) s :
+  bind (bind m f) g s = bind m (fun x => bind (f x) g) s.
+Proof. unfold bind. destruct (m s); reflexivity. Qed.
+Lemma bind_ret_tt (m : M machine unit) s : bind m (fun _ => ret tt) s = m s.
+Proof. unfold bind, ret. destruct (m s) as [[] ?|]; reflexivity. Qed.
+Lemma bind_ret_run {A B} (a : A) (f : A -> M machine B) s : bind (ret a) f s = f a s.
+Proof. reflexivity. Qed.
+
+
 (* symbolic execution of straight-line monadic code applied to a state *)
 Ltac mstep :=
   repeat first
